@@ -120,3 +120,13 @@ def C(name, z, tag="property"):
 
 def A(name, z):
     return Clause(name, z if not isinstance(z, bool) else z3.BoolVal(z), "aux")
+
+
+def forall(vs, body, patterns=None):
+    """ForAll with trigger patterns; falls back to solver-chosen triggers if z3 rejects a pattern."""
+    if patterns:
+        try:
+            return z3.ForAll(vs, body, patterns=patterns)
+        except z3.Z3Exception:
+            pass
+    return z3.ForAll(vs, body)
